@@ -131,10 +131,11 @@ type spT interface {
 type nstate struct {
 	f      *fakeN
 	dead   bool
-	order  []string       // keys of the Subscribe calls whose goroutine is still parked on Err(), in blocking order
-	calls  int            // Subscribe calls made with this notifier while alive (goroutines waiting on Err)
-	subs   map[string]int // oracle: key -> subscriptions made while alive
-	zombie map[string]int // oracle: key -> subscriptions made after the error fired
+	order  []string        // keys of the Subscribe calls whose goroutine is still parked on Err(), in blocking order
+	calls  int             // Subscribe calls made with this notifier while alive (goroutines waiting on Err)
+	subs   map[string]int  // oracle: key -> subscriptions made while alive
+	zombie map[string]int  // oracle: key -> subscriptions made after the error fired
+	oneErr map[string]bool // oracle: an unsubscription of this key was triggered by a single error value
 }
 
 type runner struct {
@@ -246,7 +247,7 @@ func param(a string) (string, bool) {
 func (rn *runner) notifier(id string) *nstate {
 	st := rn.ns[id]
 	if st == nil {
-		st = &nstate{f: &fakeN{id: id, errc: make(chan error), rn: rn}, subs: map[string]int{}, zombie: map[string]int{}}
+		st = &nstate{f: &fakeN{id: id, errc: make(chan error), rn: rn}, subs: map[string]int{}, zombie: map[string]int{}, oneErr: map[string]bool{}}
 		rn.ns[id] = st
 	}
 	return st
@@ -283,6 +284,7 @@ func (rn *runner) Step(ctx *core.Ctx, op []string) string {
 			st.calls++
 			rn.alive++
 			st.subs[key]++
+			st.oneErr[key] = false
 			st.order = append(st.order, key)
 		}
 		if !rn.settle() {
@@ -321,6 +323,7 @@ func (rn *runner) Step(ctx *core.Ctx, op []string) string {
 		st.calls--
 		rn.alive--
 		st.subs[key] = 0 // oracle: one unsubscription must remove every entry of the notifier on that key
+		st.oneErr[key] = true
 		if !rn.settle() {
 			rn.broken = true
 			return "sched-fail"
@@ -399,6 +402,8 @@ func (rn *runner) oracle(ctx *core.Ctx, keys []string, msg string) {
 				ctx.Fail("delivery-after-error/single", "%s got %d message(s) on %s after its error channel fired", id, g, k)
 			case !st.dead && g < st.subs[k]:
 				ctx.Fail("missed-delivery", "%s has %d subscription(s) on %s but got %d message(s)", id, st.subs[k], k, g)
+			case !st.dead && g > 0 && st.subs[k] == 0 && st.oneErr[k]:
+				ctx.Fail("delivery-after-error/one-unsubscription-left-duplicate", "%s got %d message(s) on %s after an unsubscription of that key was processed", id, g, k)
 			case !st.dead && g > st.subs[k]:
 				ctx.Fail("extra-delivery", "%s has %d subscription(s) on %s but got %d message(s)", id, st.subs[k], k, g)
 			}
